@@ -214,10 +214,46 @@ func genWide(t *rapid.T) Case {
 	return c
 }
 
+// genNearEnd: an end point of the second segment lies on the first segment up to a
+// few units in the last place (computed in floating point, then nudged), so that the
+// segments cross, touch or miss within rounding of that end point: the computed
+// crossing may fall outside an envelope there, which is where the implementation
+// falls back on the most central end point.
+func genNearEnd(t *rapid.T) Case {
+	f := func(l string) float64 {
+		return float64(rapid.IntRange(-4000, 4000).Draw(t, l)) + rapid.SampledFrom([]float64{0, 0, 0.5, 0.25, 0.1, 0.3}).Draw(t, l+"f")
+	}
+	var c Case
+	p1, p2 := [2]float64{f("ax"), f("ay")}, [2]float64{f("bx"), f("by")}
+	if p1 == p2 {
+		p2[0]++
+	}
+	tt := rapid.SampledFrom([]float64{0.5, 0.25, 0.75, 1.0 / 3, 0.1, 0.9, 0.001, 0.999}).Draw(t, "tt")
+	if rapid.Bool().Draw(t, "anyt") {
+		tt = rapid.Float64Range(0, 1).Draw(t, "ttv")
+	}
+	q1 := [2]float64{nudge(p1[0]+tt*(p2[0]-p1[0]), rapid.IntRange(-3, 3).Draw(t, "ux")), nudge(p1[1]+tt*(p2[1]-p1[1]), rapid.IntRange(-3, 3).Draw(t, "uy"))}
+	q2 := [2]float64{f("cx"), f("cy")}
+	if q1 == q2 {
+		q2[1]++
+	}
+	pts := [4][2]float64{p1, p2, q1, q2}
+	if rapid.Bool().Draw(t, "swapsegs") {
+		pts = [4][2]float64{q2, q1, p2, p1}
+	}
+	for i := range pts {
+		c.P[i] = [2]model.F{model.Of(pts[i][0]), model.Of(pts[i][1])}
+	}
+	c.Class = "float:near-endpoint"
+	return c
+}
+
 func genCase(t *rapid.T) Case {
 	var c Case
-	if k := rapid.IntRange(0, 7).Draw(t, "float"); k == 0 {
+	if k := rapid.IntRange(0, 8).Draw(t, "float"); k == 0 {
 		c = genWide(t)
+	} else if k == 8 {
+		c = genNearEnd(t)
 	} else if k <= 2 {
 		c = genFloat(t)
 	} else {
@@ -340,6 +376,17 @@ func propOne(c Case) error {
 		// (the points reported may alias the coordinates handed in - a collinear overlap is
 		// reported as the endpoint slices themselves; no statement says otherwise, so the
 		// result is only read here, never written)
+		for k := range in {
+			want := coi(c, idx[k])
+			if len(in[k]) != len(want) {
+				return fmt.Errorf("%s: argument %d now has %d ordinates, had %d", what, k, len(in[k]), len(want))
+			}
+			for d := range want {
+				if math.Float64bits(in[k][d]) != math.Float64bits(want[d]) {
+					return fmt.Errorf("%s: the call changed ordinate %d of its argument %d from %v to %v", what, d, k, want[d], in[k][d])
+				}
+			}
+		}
 		if int(r.Type()) != wantKind {
 			return fmt.Errorf("%s: type %v, exact %v", what, r.Type(), lineintersection.Type(wantKind))
 		}
@@ -403,6 +450,31 @@ func propOne(c Case) error {
 			g0, g1 := exact.Pt(pts[0][0], pts[0][1]), exact.Pt(pts[1][0], pts[1][1])
 			if !(g0.Eq(wantPts[0]) && g1.Eq(wantPts[1]) || g0.Eq(wantPts[1]) && g1.Eq(wantPts[0])) {
 				return fmt.Errorf("%s: overlap reported as %v - %v, exact overlap (%v,%v) - (%v,%v)", what, pts[0], pts[1], exact.Float(wantPts[0].X), exact.Float(wantPts[0].Y), exact.Float(wantPts[1].X), exact.Float(wantPts[1].Y))
+			}
+		}
+		// the four end points as windows of one flat array (each window's capacity runs on
+		// over its neighbours), laid out in a rotated order: same type, array untouched
+		if vi%3 == 0 {
+			var flat []float64
+			var off, ln [4]int
+			for r := 0; r < 4; r++ {
+				k := (r + 1 + vi) % 4
+				w := coi(c, idx[k])
+				off[k], ln[k] = len(flat), len(w)
+				flat = append(flat, w...)
+			}
+			flat = append(flat, 7, 7, 7)[:len(flat)]
+			before := append([]float64{}, flat[:cap(flat)]...)
+			w := func(k int) geom.Coord { return geom.Coord(flat[off[k] : off[k]+ln[k]]) }
+			rw := lineintersector.LineIntersectsLine(lineintersector.RobustLineIntersector{}, w(0), w(1), w(2), w(3))
+			if int(rw.Type()) != wantKind {
+				return fmt.Errorf("%s, end points as windows of one array: type %v, exact %v", what, rw.Type(), lineintersection.Type(wantKind))
+			}
+			now := flat[:cap(flat)]
+			for i := range before {
+				if math.Float64bits(before[i]) != math.Float64bits(now[i]) {
+					return fmt.Errorf("%s, end points as windows of one array: element %d of the array changed from %v to %v", what, i, before[i], now[i])
+				}
 			}
 		}
 		if c.Integer {
